@@ -10,6 +10,7 @@ import KyupyVerif.Proofs.CycleNet
 import KyupyVerif.Proofs.CycleMem
 import KyupyVerif.Proofs.CycleRel
 import KyupyVerif.Proofs.CycleStrip
+import KyupyVerif.Proofs.NextStateSpec
 /-! # C01 — 2-valued logic simulation computes the netlist's Boolean function
 
 Generated from the working tree: `Gen.sem2n` (what `logic_sim._prop_cpu` computes for an op code),
@@ -34,6 +35,9 @@ a pure injection callback folded into `sem`, C16), every `merge` (m = 2, 4: copy
   sets state rows of `s[0]` to `merge old s[1][p]`; `cycle_zero_slot`;
 * (7) `cycle_iter` — `s[0]` after `cycle(k)` = `N^k s[0]`, `N = Cycle.nextState` (defined by THE solution: (7') `nextState_unique`),
   port rows constant, `s[1]` = capture of the labelling of `N^(k-1) s[0]`; memory left by earlier cycles is irrelevant;
+* (7s) `nextState_is_spec` — `N` is the INDEPENDENT specification `KV.nextStateFrom` (ports keep, a state element takes the value of
+  its data line under any labelling the specification's `consistentB` accepts, an open data pin takes constant 0), `nextState_eq_from`
+  (the driver's `eval2` next state is that function of the `evalAll` labelling);
 * (7'') `cycle_array_form` — the driver's array form = the model;
 * (8) `cycle_on_memory`, (8') `cycle_end_to_end` — the loop ON MEMORY (`s_to_c` writes rows `c_locs[ppi_offset+p]`, real op rows on
   memory, `c_to_s` reads rows `c_locs[ppo_offset+p]`; any allocator, `c_reuse`, `strip_forks`) = the signal-level loop, under the
@@ -339,6 +343,46 @@ theorem nextState_unique {α} (tbl : List PrefixRow) (net : Net) (order : List N
     (hval : SolvesJ (Jt net) sem ((genOps tbl net order false).map OpRow.toOp) (sToC (tabsOf net false) d a env) val) :
     Cycle.nextState sem (sigOps tbl net order false) net false merge d env a = nextRow net false merge val a :=
   nextRow_congr net false merge _ _ a fun p => sol_eq_val tbl net order hwf ho sem _ val hval _ (capSig_notJunk net hwf p)
+
+open KV.Cycle in
+/-- (7s) **`nextState_is_spec`: the next-state function of `cycle_iter` IS the independent specification** (audit item C01).
+`KV.nextStateFrom net z v a` (Model/Net.lean, written without reference to op rows, memory or index tables): ports keep their value, a
+state element takes what the labelling `v` of the lines gives its data line, a state element with OPEN data pin takes the constant
+`z` (constant 0 — the documented reading of an unconnected pin; the code since the D9 repair copies the constant-0 slot; the earlier
+version of the specification kept the old value, which the code never did).  For every well-formed netlist, every topological order
+that schedules every line (`forksOKB`, `linesDrivenB`: decidable, evaluated per case), every memory `env` and assignment `a`: with `e0`
+the memory after `s_to_c` and `v` ANY labelling that the specification's acceptance check `consistentB` (gate-by-gate equations
+`lineEq` over the documented formulas `prim2`) accepts for the assignment in the (P)PI slots of `e0`, the simulator's next assignment
+(2-valued `c_prop` — the njit path `semL2n`; the other two paths compute the same signals, `sim2_paths` — `c_to_s`, `s_ppo_to_ppi`) is
+`nextStateFrom`.  The constant `z` is the content of the constant slot (`cycle_zero_slot`: 0 on every real memory). -/
+theorem nextState_is_spec (net : Net) (order : List Nat) (hwf : net.wfB = true) (ho : orderOKB net order = true)
+    (hfk : forksOKB net order = true) (hall : linesDrivenB Gen.kindPrefixes net order = true)
+    (d : Bool) (env : Nat → Bool) (a : List Bool) (v : Array Bool)
+    (hc : consistentB net (sToC (tabsOf net false) d a env net.idx.zero) (!·) prim2
+            (fun p => sToC (tabsOf net false) d a env (net.idx.ppi + p)) v = true) :
+    Cycle.nextState (fun op => semL2n op.code) (sigOps Gen.kindPrefixes net order false) net false mergeCopy d env a =
+      nextStateFrom net (sToC (tabsOf net false) d a env net.idx.zero) v a :=
+  nextState_is_spec_main net order hwf ho hfk hall d env a v hc
+
+/-- the driver's executable next-state function (`eval2`, the oracle's expected values for `cycle(k)`) is `nextStateFrom` of the
+labelling its evaluator `evalAll` returns — which it submits to `consistentB` on every request (answer flag `!`) -/
+theorem nextState_eq_from (net : Net) (a : Nat → Bool) (j : Nat) (hj : j < net.sNodes.length) :
+    KV.nextState net a j =
+      (nextStateFrom net false (evalAll net false (!·) prim2 a) ((List.range net.sNodes.length).map a)).getD j false :=
+  nextState_eq_from_main net a j hj
+
+/-- non-vacuity: `q = DFF(open)`, `z = NOT(q)` observed at an output port, input `a` unused: from state 1 the next state is 0 -/
+def openNet : Net :=
+  { nodes := #[⟨"input", [], [some 0]⟩, ⟨"__fork__", [some 0], []⟩, ⟨"DFF", [], [some 1]⟩, ⟨"__fork__", [some 1], [some 2]⟩,
+               ⟨"INV1", [some 2], [some 3]⟩, ⟨"output", [some 3], []⟩],
+    lines := #[⟨0, 0, 1, 0⟩, ⟨2, 0, 3, 0⟩, ⟨3, 0, 4, 0⟩, ⟨4, 0, 5, 0⟩],
+    io := [0, 5] }
+example : openNet.wfB = true ∧ orderOKB openNet [0, 2, 1, 3, 4, 5] = true ∧ forksOKB openNet [0, 2, 1, 3, 4, 5] = true ∧
+    linesDrivenB Gen.kindPrefixes openNet [0, 2, 1, 3, 4, 5] = true ∧ openNet.sNodes = [0, 5, 2] ∧ openNet.arityOKB = true := by
+  decide +kernel
+example : consistentB openNet false (!·) prim2 (fun p => p == 2) (evalAll openNet false (!·) prim2 (fun p => p == 2)) = true ∧
+    nextStateFrom openNet false (evalAll openNet false (!·) prim2 (fun p => p == 2)) [false, false, true] = [false, false, false] := by
+  decide +kernel
 
 open KV.Cycle in
 /-- (7'') the form the correspondence runs evaluate: the compiled driver runs `cycleKA` (memory as an array of `c_locs_len`
